@@ -3,9 +3,11 @@ CONSTANTS
   NT = 2
   NU = 1
   NA = 1
+  Throwing = TRUE
+  WithMake = TRUE
   Vals = {1, 2}
   K = 3
 INVARIANTS TypeOK WellFormed LastAgrees AgreesWithHistory Conservation
-PROPERTIES RefProtocolLegalH IndependenceH CopiesEqualSourceH
+PROPERTIES RefProtocolLegalH IndependenceH CopiesEqualSourceH NothingGivenByThrowH
 CONSTRAINT HistBound
 VIEW View
